@@ -251,6 +251,11 @@ def ctx_read(ctx):
 
 @rule('CTX-DERIVE', {
     'C07': 'a dot that is not get+1 collides with an earlier op; a remove context larger than what was read removes unseen data',
+    'C04': '[primitive] Orswot::add / rm build their ops from these contexts (CTX-OPS): an add whose dot is not fresh is dropped by '
+           'the gate, a remove context other than the read one removes unobserved adds or keeps observed ones',
+    'C05': '[primitive] same for Map::update / rm',
+    'C06': '[primitive] MVReg::write carries the derived clock (MV-WRITE): it replaces what the read returned only if that clock is '
+           'the read clock plus the fresh dot',
 }, floor=3)
 def ctx_derive(ctx):
     """derive_add_ctx: dot = add_clock.inc(actor), clock = add_clock with that dot applied; derive_rm_ctx: clock = rm_clock; split copies both."""
